@@ -1,7 +1,8 @@
 #!/bin/bash
 # run every thorough check once, sequentially; one summary line per check
 cd "$(dirname "$0")/.."
-for c in C08 C20 C12 C02 C16 C01 C17 C11 C07 C03 C05 C04 C06 C09 C10 C13 C14 C15 C18 C19; do
+# (optional arguments: the checks to run, in that order)
+for c in ${@:-C08 C20 C12 C02 C16 C01 C17 C11 C07 C03 C05 C04 C06 C09 C10 C13 C14 C15 C18 C19}; do
   s=$(date +%s)
   out=$(python3 tools/check.py $c --tier thorough 2>&1)
   rc=$?
